@@ -33,6 +33,19 @@ def build(texts, safe=None, filenames=None, eval_ctx=None):
     return Config(merged(texts, safe, filenames), eval_ctx=eval_ctx)
 
 
+def build_via(texts, route='config', safe=None, filenames=None, eval_ctx=None):
+    """two public evaluation routes: Config(tree) (deep-copies the tree first) and EvalContext.evaluate(tree) on the merged tree itself"""
+    if route == 'config':
+        return build(texts, safe, filenames, eval_ctx)
+    from awesomeyaml.eval_context import EvalContext
+    from awesomeyaml.config import Config
+    tree = merged(texts, safe, filenames)
+    if not tree:
+        return {}
+    Config.check_missing(tree)
+    return (eval_ctx or EvalContext()).evaluate(tree)
+
+
 def outcome(fn, *a, **kw):
     try:
         return ('ok', fn(*a, **kw))
